@@ -127,22 +127,24 @@ class Gen:
         return items[-1][0]
 
     # ---- expressions over earlier integer fields
-    def int_expr(self, ints, depth=0, small=True):
+    def int_expr(self, ints, depth=0, small=True, nogrow=False):
         rng = self.rng
         if not ints or depth >= 2 or rng.random() < 0.35:
             if ints and rng.random() < 0.8:
                 return ('field', rng.choice(ints))
             return ('lit', rng.choice([0, 1, 2, 3]))
         op = rng.choice(['Add', 'Sub', 'Mul', 'BAnd', 'BOr', 'BXor', 'Mod', 'FloorDiv', 'RShift', 'LShift', 'Neg', 'Inv', 'ite'])
+        if nogrow and op in ('Mul', 'LShift'):
+            op = 'Add'
         if op == 'Neg':
-            return ('un', 'Neg', ('un', 'Neg', self.int_expr(ints, depth + 1)))
+            return ('un', 'Neg', ('un', 'Neg', self.int_expr(ints, depth + 1, nogrow=nogrow)))
         if op == 'Inv':
-            return ('bin', 'BAnd', ('un', 'Inv', self.int_expr(ints, depth + 1)), ('lit', rng.choice([1, 3, 7])))
+            return ('bin', 'BAnd', ('un', 'Inv', self.int_expr(ints, depth + 1, nogrow=nogrow)), ('lit', rng.choice([1, 3, 7])))
         if op == 'ite':
-            return ('ite', self.cond_expr(ints, depth + 1), self.int_expr(ints, depth + 1), ('lit', rng.choice([0, 1, 2])))
-        a = self.int_expr(ints, depth + 1)
+            return ('ite', self.cond_expr(ints, depth + 1), self.int_expr(ints, depth + 1, nogrow=nogrow), ('lit', rng.choice([0, 1, 2])))
+        a = self.int_expr(ints, depth + 1, nogrow=nogrow)
         b = ('lit', rng.choice([1, 2, 3])) if op in ('Mod', 'FloorDiv', 'RShift', 'LShift', 'Mul') or rng.random() < 0.5 \
-            else self.int_expr(ints, depth + 1)
+            else self.int_expr(ints, depth + 1, nogrow=nogrow)
         if rng.random() < 0.2 and op in ('Sub', 'Add', 'BAnd', 'BOr', 'BXor'):
             a, b = b, a              # reflected operand order: 8 - x
         if a[0] == 'lit' and b[0] == 'lit':
@@ -315,13 +317,14 @@ class Gen:
             pc['gu'] = False
         n = nfields or rng.choice([1, 2, 2, 3, 3, 4, 5, 6])
         ints = []
+        wide = set()      # two-byte integer fields: not used in counts
         i = 0
         fields = pc['fields']
         while i < n:
             kind = self.pick([('elem', 6), ('bits', 1.2 if (self.feat['bits'] and pc['align'] is None) else 0),
                               ('seq', 2 if self.feat['seq'] else 0), ('opt', 1.2 if (self.feat['opt'] and ints) else 0),
                               ('em', 0.3 if self.feat['em'] else 0)])
-            mv = self.move(ints) if (self.feat['move'] and rng.random() < self.feat['move_rate']) else None
+            mv = self.move([j for j in ints if j not in wide]) if (self.feat['move'] and rng.random() < self.feat['move_rate']) else None    # a two-byte target means 60 KB of fill bytes per case
             if kind == 'bits':
                 total = rng.choice([8, 8, 16, 24])
                 ws = []
@@ -339,12 +342,17 @@ class Gen:
                 fields.append({'move': mv, 'body': ('elem', el)})
                 if el[0] == 'leaf' and el[1][0] == 'int' and el[1][1] <= 2 and not el[1][2]:
                     ints.append(i)
+                    if el[1][1] == 2:
+                        wide.add(i)
             elif kind == 'seq':
                 el = self.elem(ints, cid, depth)
                 mode = self.pick([('count', 3), ('until', 1.5 if self.feat['lambdas'] else 0)])
                 count = until = when = None
                 if mode == 'count':
-                    e = self.int_expr(ints) if (ints and rng.random() < 0.75) else ('lit', rng.choice([0, 1, 2, 3]))
+                    # counts stay small (one-byte fields, no multiplication): the model appends to the list it builds (quadratic), and
+                    # tens of thousands of zero-width elements make one case cost minutes and gigabytes in vm_compute
+                    cints = [j for j in ints if j not in wide]
+                    e = self.int_expr(cints, nogrow=True) if (cints and rng.random() < 0.75) else ('lit', rng.choice([0, 1, 2, 3]))
                     count = (e, self.how(e))
                 else:
                     until = (self.until_expr(i, el, ints), 'lambda')
